@@ -1,70 +1,126 @@
 ------------------------------- MODULE I_Ring -------------------------------
-(* C45 implementation layer: one ring as lib/datastructures/hashring/hashring.go keeps it - the members
-   map, the set of keys queued for removal (swept lazily by the next Lookup), the entry table and its
-   `sorted` flag - driven by a table-driven hash chosen in Init.  TLC checks exhaustively that every
-   Lookup answers Owner(live members, key), a function of the live member set only, and a live member:
-   the property layer's demands hold for every history and every hash table of the configuration.     *)
-EXTENDS Ring
+(* C32 implementation layer: goldmane/pkg/storage BucketRing as a ring of N slots (time unit = one
+   bucket interval): bstart (start time per slot), head, per-slot per-key packet sums, pushed flags;
+   AddFlow = findBucket arithmetic; Rollover = advance head, recycle the slot, then (with a sink)
+   EmitFlowCollections: walk back from `now - pushAfter` in windows of bucketsToAggregate slots until a
+   pushed slot or until the head falls strictly inside the next window; emit the non-empty windows
+   oldest first and mark their slots pushed.
+   The property layer P_Ring runs alongside as ghost state; TLC checks that every emission is one
+   P_Ring!EmitAllowed accepts (disjoint from earlier windows, complete, counted once) and that every
+   retained accepted flow is counted in exactly the slot whose interval contains its start time.
 
-CONSTANTS Names,     \* member ids
-          LKeys,     \* lookup key ids
-          R, P, Q,   \* replicas, probes, size of the hash range
-          HTabs      \* the hash tables to explore: functions id -> <<hash with salt 0, salt 1, ...>>
+   Configurations are restricted to (N - 1 - PushAfter) % Agg # 0 (see ASSUME): otherwise the walk
+   back, when no slot is pushed yet, reaches a window that ends or starts exactly at the head slot,
+   which `indexBetween` (a strict test) does not catch - the walk wraps into the newest buckets
+   (notes/C32.md).  Goldmane's defaults (242, 30, 20) satisfy the restriction.                     *)
+EXTENDS Integers, Sequences, FiniteSets, TLC
 
-VARIABLES mem, del, entries, sorted, htab, res
-ivars == <<mem, del, entries, sorted, htab, res>>
+CONSTANTS Keys, N, PushAfter, Agg, MaxT, MaxFlows
+ASSUME N >= PushAfter + Agg + 2 /\ Agg >= 1 /\ (N - 1 - PushAfter) % Agg # 0
 
-Salts == IF R > P THEN R ELSE P
-AllHTabs == [Names \cup LKeys -> [1..Salts -> 0..(Q - 1)]]
+VARIABLES bstart, head, cnt, pushed,                   \* implementation state
+          n, interval, boh, eoh, acc, emitted,         \* property-layer (ghost) state
+          viol                                         \* some emission was not allowed by P_Ring
+ivars == <<bstart, head, cnt, pushed>>
+pvars == <<n, interval, boh, eoh, acc, emitted>>
+vars == <<bstart, head, cnt, pushed, n, interval, boh, eoh, acc, emitted, viol>>
 
-IInit == /\ mem = {} /\ del = {} /\ entries = <<>> /\ sorted = FALSE /\ res = <<0, 0, {}>>
-         /\ htab \in HTabs
-         /\ PInit      \* the property layer's variables are not used by this module
+P == INSTANCE P_Ring
 
-LiveNow == mem \ del
+Slots == 0..(N - 1)
+Zero == [k \in Keys |-> 0]
+Mod(i) == i % N
 
-IInsert(m) ==
-    /\ IF m \in del THEN del' = del \ {m} /\ UNCHANGED <<mem, entries, sorted>>
-       ELSE IF m \in mem THEN UNCHANGED <<mem, del, entries, sorted>>
-       ELSE /\ mem' = mem \cup {m}
-            /\ entries' = entries \o [i \in 1..R |-> <<HashOf(htab, m, i - 1), m>>]
-            /\ sorted' = FALSE
-            /\ UNCHANGED del
-    /\ UNCHANGED <<htab, res>> /\ UNCHANGED pvars
+\* NewBucketRing(N, 1, now = Now0): the newest slot starts one interval in the future.  Now0 is
+\* well above zero because 0 means "open end" in query ranges (as in the real API, where times are
+\* Unix seconds).
+Now0 == 20
+RInit ==
+    /\ n = N /\ interval = 1 /\ eoh = Now0 + 2 /\ boh = Now0 + 2 - N /\ acc = <<>> /\ emitted = {}
+    /\ head = 0
+    /\ bstart = [j \in Slots |-> IF j = 0 THEN Now0 + 1 ELSE Now0 + 1 - N + j]
+    /\ cnt = [j \in Slots |-> Zero]
+    /\ pushed = [j \in Slots |-> FALSE]
+    /\ viol = FALSE
 
-IRemove(m) ==
-    /\ del' = IF m \in mem THEN del \cup {m} ELSE del
-    /\ UNCHANGED <<mem, entries, sorted, htab, res>> /\ UNCHANGED pvars
+HeadEnd == bstart[head] + 1
+BoH == bstart[Mod(head + 1)]
 
-\* position of the first entry with hash >= p in a sorted table (what the binary search finds), or 1
-Search(es, p) ==
-    LET ge == { i \in 1..Len(es) : es[i][1] >= p } IN
-    IF ge = {} THEN 1 ELSE CHOOSE i \in ge : \A j \in ge : i <= j
+\* AddFlow(flow): findBucket(flow.StartTime)
+AddFlow(k, t) ==
+    /\ Len(acc) < MaxFlows
+    /\ IF t >= HeadEnd \/ t < BoH
+         THEN UNCHANGED cnt                                   \* "Unable to sort flow into a bucket"
+         ELSE LET idx == Mod(head - (HeadEnd - 1 - t) + N) IN
+              cnt' = [cnt EXCEPT ![idx][k] = @ + 1]
+    /\ P!AddFlow([key |-> k, t |-> t, pin |-> 1, pout |-> 0, bin |-> 0, bout |-> 0])
+    /\ UNCHANGED <<bstart, head, pushed, viol>>
 
-ILookup(k) ==
-  /\ UNCHANGED pvars
-  /\ IF LiveNow = {} THEN res' = <<k, 0, {}>> /\ UNCHANGED <<mem, del, entries, sorted, htab>>
-    ELSE
-      LET swept == SelectSeq(entries, LAMBDA e : e[2] \notin del)
-          es == IF sorted THEN swept ELSE SortSeq(swept, Less)
-          Cand(i) == LET p == HashOf(htab, k, i) idx == Search(es, p) IN <<Dist(Q, es[idx], p), i, idx>>
-          C == { Cand(i) : i \in 0..(P - 1) }
-          best == CHOOSE c \in C : \A d \in C : c = d \/ c[1] < d[1] \/ (c[1] = d[1] /\ c[2] < d[2])
-      IN  /\ entries' = es /\ sorted' = TRUE /\ mem' = LiveNow /\ del' = {}
-          /\ res' = <<k, es[best[3]][2], LiveNow>>
-          /\ UNCHANGED htab
+\* ---- EmitFlowCollections over the post-rollover ring (h, bs, c, pu) -------------------------------
+IndexBetween(s, e, target) ==
+    IF s = e THEN FALSE ELSE IF s < e THEN target > s /\ target < e ELSE target > s \/ target < e
+RECURSIVE SlotsFrom(_, _)
+SlotsFrom(s, e) == IF s = e THEN <<>> ELSE <<s>> \o SlotsFrom(Mod(s + 1), e)        \* iterBuckets(start, end)
+\* maybeBuildFlowCollection: keys from the slots, counters from the diachronic windows whose
+\* [start, end) lies within [bstart[startIdx], bstart[endIdx])
+Build(bs, c, s, e) ==
+    LET sl == SlotsFrom(s, e)
+        ks == { k \in Keys : \E i \in DOMAIN sl : c[sl[i]][k] > 0 }
+        t0 == bs[s]
+        t1 == bs[e]
+        inwin == { j \in Slots : bs[j] >= t0 /\ bs[j] + 1 <= t1 }
+        RECURSIVE Tot(_, _)
+        Tot(S, k) == IF S = {} THEN 0 ELSE LET j == CHOOSE x \in S : TRUE IN c[j][k] + Tot(S \ {j}, k)
+        present == { k \in ks : \E j \in Slots : c[j][k] > 0 /\ bs[j] >= t0 /\ bs[j] < t1 }   \* DiachronicFlow.Within
+    IN  [s |-> t0, e |-> t1, slots |-> sl,
+         got |-> [k \in present |-> [pin |-> Tot(inwin, k), pout |-> 0, bin |-> 0, bout |-> 0]]]
+RECURSIVE Walk(_, _, _, _, _, _, _)
+Walk(h, bs, c, pu, s, e, out) ==
+    IF pu[s] THEN out                                            \* "Reached an already emitted bucket"
+    ELSE LET out2 == Append(out, Build(bs, c, s, e))
+             e2 == s
+             s2 == Mod(s - Agg + N)
+         IN  IF IndexBetween(s2, e2, h) \/ Len(out2) > N THEN out2 ELSE Walk(h, bs, c, pu, s2, e2, out2)
+Collections(h, bs, c, pu) ==
+    LET e0 == Mod(h - 1 - PushAfter + N)
+        s0 == Mod(e0 - Agg + N)
+    IN  Walk(h, bs, c, pu, s0, e0, <<>>)
 
-INext == \/ \E m \in Names : IInsert(m) \/ IRemove(m)
-         \/ \E k \in LKeys : ILookup(k)
+\* judge the emitted (non-empty) collections, oldest first = reverse order of the walk
+RECURSIVE Judge(_, _, _, _)
+Judge(cols, i, a, em) ==
+    IF i = 0 THEN [ok |-> TRUE, em |-> em]
+    ELSE IF DOMAIN cols[i].got = {} THEN Judge(cols, i - 1, a, em)                  \* empty: not sent
+    ELSE IF ~P!EmitAllowed(a, em, cols[i].s, cols[i].e, cols[i].got) THEN [ok |-> FALSE, em |-> em]
+    ELSE Judge(cols, i - 1, a, em \cup {<<cols[i].s, cols[i].e>>})
+PushedAfter(cols, pu) ==
+    [j \in Slots |-> pu[j] \/ \E i \in DOMAIN cols : DOMAIN cols[i].got # {} /\ \E x \in DOMAIN cols[i].slots : cols[i].slots[x] = j]
 
-\* ---- what the design leg checks -----------------------------------------------------------------
-ITypeOK == del \subseteq mem /\ htab \in AllHTabs
-\* the entry table holds exactly R entries per member still in the members map, and is sorted when it says so
-EntriesOK ==
-    /\ Len(entries) = R * Cardinality(mem)
-    /\ { entries[i] : i \in 1..Len(entries) } = Entries(htab, R, mem)
-    /\ sorted => \A i \in 1..(Len(entries) - 1) : entries[i] = entries[i + 1] \/ Less(entries[i], entries[i + 1])
-\* the property layer's demands: an owner from the live members, and a function of the live set only
-OwnerIsLive == res[3] # {} => res[2] \in res[3]
-OwnerIsFunctionOfSet == res[3] # {} => res[2] = Owner(htab, R, P, Q, res[3], res[1])
+Rollover(withSink) ==
+    /\ eoh < MaxT
+    /\ LET h  == Mod(head + 1)
+           bs == [bstart EXCEPT ![h] = bstart[head] + 1]
+           c  == [cnt EXCEPT ![h] = Zero]
+           pu == [pushed EXCEPT ![h] = FALSE]
+           a2 == LET Kept(f) == f.t >= boh + 1 IN SelectSeq(acc, Kept)
+           cols == IF withSink THEN Collections(h, bs, c, pu) ELSE <<>>
+           j == Judge(cols, Len(cols), a2, emitted)
+       IN  /\ head' = h /\ bstart' = bs /\ cnt' = c
+           /\ pushed' = PushedAfter(cols, pu)
+           /\ boh' = boh + 1 /\ eoh' = eoh + 1 /\ acc' = a2
+           /\ emitted' = j.em /\ viol' = (viol \/ ~j.ok)
+           /\ UNCHANGED <<n, interval>>
+
+Next == \/ \E k \in Keys, t \in (BoH - 1)..HeadEnd : AddFlow(k, t)
+        \/ \E w \in BOOLEAN : Rollover(w)
+
+\* ---- what TLC checks ----------------------------------------------------------------------------
+NoViolation == ~viol
+\* ghost and implementation agree on the retained history
+HistoryAgrees == boh = BoH /\ eoh = HeadEnd
+\* conservation: every retained accepted flow is counted in exactly the slot whose interval contains it
+Conservation ==
+    \A j \in Slots, k \in Keys :
+        cnt[j][k] = Cardinality({ i \in DOMAIN acc : acc[i].key = k /\ acc[i].t = bstart[j] })
+SlotsContiguous == \A j \in Slots : j # head => bstart[Mod(j + 1)] = bstart[j] + 1
 =============================================================================
